@@ -4,6 +4,7 @@ import EtVerif.Props.TrC05
 import EtVerif.Props.TrC01
 import EtVerif.Props.TrGo05
 import EtVerif.Props.TrChk
+import EtVerif.Props.TrSrc
 #print axioms EtVerif.C05.loop_returns_iterate
 #print axioms EtVerif.C05.loop_returns_iterate_init
 #print axioms EtVerif.C05.stopIter_spec
@@ -90,3 +91,10 @@ import EtVerif.Props.TrChk
 #print axioms EtVerif.TrChk.update_simulates
 #print axioms EtVerif.TrChk.converged_agrees
 #print axioms EtVerif.TrChk.delta_agrees
+-- basic.Compute translated TOGETHER WITH the convergence checker translated from the source (no hand-written checker
+-- in between) refines the model, under the oracle hypotheses about sqrt on sums of squares
+#print axioms EtVerif.TrSrc.compute_src_refines_ok_partial
+#print axioms EtVerif.TrSrc.compute_src_refines_err_partial
+#print axioms EtVerif.TrSrc.compute_src_refuses_validation
+#print axioms EtVerif.TrSrc.oracleOK_of_forall
+#print axioms EtVerif.TrSrc.go_compute_src_distribution
